@@ -17,6 +17,7 @@ use akd::storage::{Database, DbSetState, Storable, StorageUtil};
 use akd::{AkdLabel, AkdValue, EpochHash, HistoryParams, HistoryVerificationParams};
 use akd_core::configuration::Configuration;
 use std::collections::HashMap;
+use std::fmt::Write as _;
 use std::sync::atomic::{AtomicBool, AtomicUsize, Ordering};
 use std::sync::Arc;
 use std::time::Duration;
@@ -38,6 +39,10 @@ pub struct Ctl {
     bg: AtomicUsize,
     /// parked operations of such tasks, oldest first; released newest first so that an operation nobody waits for stays parked
     bgq: std::sync::Mutex<Vec<Arc<Semaphore>>>,
+    /// a batch write takes this many milliseconds before it reaches the database (ungated multi-thread runs)
+    write_delay_ms: AtomicUsize,
+    /// the next transaction commit is rejected by the database (one-shot)
+    fail_next_commit: AtomicBool,
 }
 impl Ctl {
     pub fn new(ntasks: usize) -> Arc<Ctl> {
@@ -49,6 +54,8 @@ impl Ctl {
             post_gate: AtomicBool::new(false),
             bg: AtomicUsize::new(usize::MAX),
             bgq: std::sync::Mutex::new(vec![]),
+            write_delay_ms: AtomicUsize::new(0),
+            fail_next_commit: AtomicBool::new(false),
         })
     }
     async fn gate(&self) {
@@ -119,6 +126,13 @@ impl Database for GateDb {
     }
     async fn batch_set(&self, r: Vec<DbRecord>, s: DbSetState) -> Result<(), StorageError> {
         self.ctl.gate().await;
+        let d = self.ctl.write_delay_ms.load(Ordering::SeqCst);
+        if d > 0 {
+            tokio::time::sleep(Duration::from_millis(d as u64)).await;
+        }
+        if matches!(s, DbSetState::TransactionCommit) && self.ctl.fail_next_commit.swap(false, Ordering::SeqCst) {
+            return Err(StorageError::Connection("injected: the database rejects this commit".to_string()));
+        }
         let x = self.inner.batch_set(r, s).await;
         self.ctl.after().await;
         x
@@ -864,6 +878,92 @@ async fn c13_poll_race<TC: Configuration>(cx: &mut Cx, k: usize, kind: u8) {
     poller.abort();
 }
 
+/// C13 on a multi-thread runtime, nothing gated: readers (get_epoch_hash, lookup) run truly in parallel with a publisher
+/// on the SAME instance whose commits take a few milliseconds to reach the database; every answer must name a pair the
+/// directory published (and lookups must verify against it)
+fn c13_parallel<TC: Configuration>(cx: &mut Cx, publishes: usize, cached: bool, failing_commits: bool) {
+    let cfg = cfg_name::<TC>();
+    let rt = tokio::runtime::Builder::new_multi_thread().worker_threads(4).enable_all().build().unwrap();
+    let res: Result<(Vec<[u8; 32]>, Vec<Vec<(u64, [u8; 32], bool, u8)>>, Vec<u64>), String> = rt.block_on(async {
+        let mut rejected: Vec<u64> = vec![];
+        let (base, labels) = base_history();
+        let ctl = Ctl::new(1);
+        let db = GateDb { inner: AsyncInMemoryDatabase::new(), ctl: ctl.clone() };
+        let dir = gdir::<TC>(&db, cached).await;
+        let mut hashes = vec![dir.get_epoch_hash().await.map_err(|e| format!("{:?}", e))?.1];
+        for b in &base {
+            hashes.push(dir.publish(upd(b)).await.map_err(|e| format!("{:?}", e))?.1);
+        }
+        let pk = HardCodedAkdVRF {}.get_vrf_public_key().await.unwrap().as_bytes().to_vec();
+        ctl.write_delay_ms.store(2, Ordering::SeqCst);
+        let done = Arc::new(AtomicBool::new(false));
+        let mut readers = vec![];
+        for ri in 0..3u8 {
+            let (d, done, pk, l) = (dir.clone(), done.clone(), pk.clone(), labels[ri as usize].clone());
+            readers.push(tokio::spawn(async move {
+                let mut seen: Vec<(u64, [u8; 32], bool, u8)> = vec![];
+                while !done.load(Ordering::SeqCst) && seen.len() < 20000 {
+                    if ri == 0 {
+                        if let Ok(e) = d.get_epoch_hash().await {
+                            seen.push((e.0, e.1, true, 0));
+                        }
+                    } else if let Ok((p, e)) = d.lookup(AkdLabel(l.clone())).await {
+                        let v = lookup_verify::<TC>(&pk, e.1, e.0, AkdLabel(l.clone()), p).is_ok();
+                        seen.push((e.0, e.1, v, 1));
+                    }
+                    tokio::task::yield_now().await;
+                }
+                seen
+            }));
+        }
+        for i in 0..publishes {
+            let b: Vec<(Vec<u8>, Vec<u8>)> = vec![(labels[i % 3].clone(), vec![60, i as u8]), (labels[3 + i % 5].clone(), vec![61, i as u8])];
+            if failing_commits && i % 2 == 1 {
+                // this publish's commit is rejected by the database: it must fail without effect
+                ctl.fail_next_commit.store(true, Ordering::SeqCst);
+                rejected.push(hashes.len() as u64);
+                if dir.publish(upd(&b)).await.is_ok() {
+                    return Err("a publish whose commit was rejected returned Ok".to_string());
+                }
+                continue;
+            }
+            hashes.push(dir.publish(upd(&b)).await.map_err(|e| format!("{:?}", e))?.1);
+        }
+        done.store(true, Ordering::SeqCst);
+        let mut all = vec![];
+        for h in readers {
+            all.push(h.await.map_err(|e| e.to_string())?);
+        }
+        Ok((hashes, all, rejected))
+    });
+    cx.stat("c13_parallel_runs");
+    match res {
+        Err(e) => cx.fail(format!("C13 [cfg {} multi-thread runtime, readers parallel to a publisher on one instance]: {}", cfg, e)),
+        Ok((hashes, all, rejected)) => {
+            for seen in &all {
+                *cx.stats.entry("c13_parallel_answers".to_string()).or_insert(0) += seen.len() as u64;
+                for (e, h, v, kind) in seen {
+                    let what = format!("[cfg {} cached {} multi-thread runtime, {} parallel to a publisher on the same instance whose commits take 2 ms{}]", cfg, cached, if *kind == 0 { "get_epoch_hash" } else { "lookup" }, if failing_commits { " and every second one is rejected by the database" } else { "" });
+                    if (*e as usize) >= hashes.len() || hashes[*e as usize] != *h {
+                        // the pair of an epoch whose commit the database rejected while the request ran (the request read the open
+                        // transaction's log) - repaired by fix 0c951d0
+                        if failing_commits && rejected.contains(e) && !hashes.contains(h) {
+                            cx.fail(format!("C13 {}: answered (epoch {}, {}) while the publish of epoch {} was being rejected by the database; that pair was never published", what, e, hx(h), e));
+                            return;
+                        }
+                        cx.fail(format!("C13 {}: the answer names (epoch {}, {}) which the directory never published (hash of that epoch: {}{})", what, e, hx(h), hashes.get(*e as usize).map(|x| hx(x)).unwrap_or("none".into()),
+                            if *e >= 1 && hashes.get(*e as usize - 1) == Some(h) { "; the hash named is that of the epoch before" } else { "" }));
+                        return;
+                    } else if !*v {
+                        cx.fail(format!("C13 {}: the answer names the published pair of epoch {} but its proof does not verify", what, e));
+                        return;
+                    }
+                }
+            }
+        }
+    }
+}
+
 pub fn run(seed: u64, tier: u32, which: &str) -> Cx {
     let rt = tokio::runtime::Builder::new_current_thread().enable_all().build().unwrap();
     let mut cx = Cx::new();
@@ -923,6 +1023,7 @@ pub fn run(seed: u64, tier: u32, which: &str) -> Cx {
                 c12_case::<W>(&mut cx, i % 2 == 0, &[b1.clone(), b2.clone(), b3.clone()], s).await;
             }
         } else {
+            // (the multi-thread scenarios run after this block, outside the current-thread runtime)
             // the same scenario on behalf of C13 and C16 (messages carry their property's prefix)
             for k in 1..(if tier == 0 { 12 } else { 40 }) {
                 for f in k3_case::<W>(k, if k % 2 == 0 { 4 } else { 0 }, false).await {
@@ -963,6 +1064,16 @@ pub fn run(seed: u64, tier: u32, which: &str) -> Cx {
             }
         }
     });
+    if which == "c13" {
+        // readers truly parallel to a publisher on the same instance (multi-thread runtime, slow commits); with
+        // commits that the database rejects every second time
+        let n = if tier == 0 { 30 } else { 300 };
+        c13_parallel::<W>(&mut cx, n, true, false);
+        c13_parallel::<W>(&mut cx, n, false, false);
+        c13_parallel::<E>(&mut cx, n / 2, true, false);
+        c13_parallel::<W>(&mut cx, n, true, true);
+        c13_parallel::<W>(&mut cx, n, false, true);
+    }
     cx
 }
 
@@ -1245,5 +1356,16 @@ pub fn proto(seed: u64, tier: u32) -> Cx {
         }
     });
     proto_parallel(&mut cx, if tier == 0 { 300 } else { 6000 }, seed);
+    cx
+}
+
+/// probe entry: the multi-thread scenario alone
+pub fn c13par(_seed: u64, tier: u32) -> Cx {
+    let mut cx = Cx::new();
+    let n = if tier == 0 { 40 } else { 400 };
+    c13_parallel::<W>(&mut cx, n, true, false);
+    c13_parallel::<W>(&mut cx, n, false, false);
+    c13_parallel::<W>(&mut cx, n, true, true);
+    c13_parallel::<W>(&mut cx, n, false, true);
     cx
 }
